@@ -82,6 +82,11 @@ type dtRow struct {
 	occ bool
 	// optional (value rows): assignments for which no effect applies carry no obligation
 	optional bool
+	// assume: assignments that cannot occur (e.g. an error equal to two different sentinels) are skipped
+	assume func(a dtAtoms) bool
+	// existsOthers: atoms the table does not declare are context, not part of the decision: the effect "happens" for an
+	// assignment of the declared atoms if it happens for some assignment of the others
+	existsOthers bool
 }
 
 func runTPCDecision(c *core.Ctx) {
@@ -564,12 +569,7 @@ func runDecisionRows(c *core.Ctx, e *Env, pkgPath, defaultType string, rows []dt
 					if env == nil {
 						// collection: visit every guard (evalGuards stops at the first one that fails)
 						for _, gd := range pth {
-							if gd.tag != nil {
-								_, _ = ev.evalInt(gd.tag, fr, nil)
-								_, _ = ev.evalInt(gd.cond, fr, nil)
-							} else {
-								_, _ = ev.evalBool(gd.cond, fr, nil)
-							}
+							_, _ = ev.evalGuards([]dtGuard{gd}, fr, nil)
 						}
 						continue
 					}
@@ -594,12 +594,7 @@ func runDecisionRows(c *core.Ctx, e *Env, pkgPath, defaultType string, rows []dt
 				g := graphOfBody(e, fn.Pkg, fn, b)
 				for _, blk := range g.CFG.Blocks {
 					if cd, tag := g.Cond(blk); cd != nil {
-						if tag != nil {
-							_, _ = ev.evalInt(tag, fr, nil)
-							_, _ = ev.evalInt(cd, fr, nil)
-						} else {
-							_, _ = ev.evalBool(cd, fr, nil)
-						}
+						_, _ = ev.evalGuards([]dtGuard{{cd, tag, true}}, fr, nil)
 					}
 				}
 			}
@@ -777,6 +772,7 @@ func runDecisionRows(c *core.Ctx, e *Env, pkgPath, defaultType string, rows []dt
 				}
 			}
 			_ = extra
+			projGot, projRef := map[string]bool{}, map[string]bool{}
 			func() {
 				defer func() {
 					if r := recover(); r != nil {
@@ -786,8 +782,11 @@ func runDecisionRows(c *core.Ctx, e *Env, pkgPath, defaultType string, rows []dt
 				// row-specific domains
 				evd := ev
 				evd.enumerateWith(pk.Types, intDom, func(env *dtEnv) bool {
-					n++
 					a := dtAtoms{pkg: pk.Types, env: env, alias: alias}
+					if row.assume != nil && !row.assume(a) {
+						return true
+					}
+					n++
 					if expr != nil {
 						got, err := ev.evalBool(expr, fr, env)
 						if err != nil {
@@ -847,6 +846,21 @@ func runDecisionRows(c *core.Ctx, e *Env, pkgPath, defaultType string, rows []dt
 							got = got || ok
 						}
 					}
+					if row.existsOthers {
+						// project on the declared atoms; compare after the enumeration
+						var parts []string
+						for name := range row.ints {
+							parts = append(parts, fmt.Sprintf("%s=%d", name, a.I(name)))
+						}
+						for _, name := range row.bools {
+							parts = append(parts, fmt.Sprintf("%s=%v", name, a.B(name)))
+						}
+						sort.Strings(parts)
+						k := strings.Join(parts, " ")
+						projGot[k] = projGot[k] || got
+						projRef[k] = row.ref(a)
+						return true
+					}
 					if got != row.ref(a) {
 						mismatch = fmt.Sprintf("for %s the code does it: %v, the table: %v", env, got, !got)
 						return false
@@ -854,6 +868,19 @@ func runDecisionRows(c *core.Ctx, e *Env, pkgPath, defaultType string, rows []dt
 					return true
 				})
 			}()
+			if evalErr == nil && mismatch == "" && row.existsOthers {
+				var ks []string
+				for k := range projRef {
+					ks = append(ks, k)
+				}
+				sort.Strings(ks)
+				for _, k := range ks {
+					if projGot[k] != projRef[k] {
+						mismatch = fmt.Sprintf("for %s the code does it: %v, the table: %v", k, projGot[k], projRef[k])
+						break
+					}
+				}
+			}
 			if evalErr == nil && mismatch == "" {
 				break
 			}
